@@ -100,6 +100,9 @@ def handle : Handler
   | "alias_tdiv_qr_ui", args => runU2 0 args
   | "alias_fdiv_qr_ui", args => runU2 (-1) args
   | "alias_cdiv_qr_ui", args => runU2 1 args
+  | "alias_rootrem", [.num a, .num b, .num c, .num nth, .num v0, .num v1, .num v2, .num v3] => do
+    let a ← idx a; let b ← idx b; let c ← idx c
+    if a = b ∨ nth < 0 ∨ nth ≥ B then none else answer (rootrem a b c nth.toNat (ofInts [v0, v1, v2, v3]))
   | "alias_mul_2exp", args => runB mul_2exp args
   | "alias_tdiv_q_2exp", args => runB tdiv_q_2exp args
   | "alias_tdiv_r_2exp", args => runB tdiv_r_2exp args
